@@ -1216,3 +1216,218 @@ func (cs codecSide) straightChain(f *ssa.Function) ([]string, bool) {
 	}
 	return chain, true
 }
+
+// ---- loop trip counts ----------------------------------------------------------
+
+// loopCounts describes, for every natural loop of f that contains wire events,
+// where its trip count comes from: "prefixed" (a natural written/read just
+// before carries it), "fixed:<expr>" (a protocol parameter or constant, with the
+// encoder checking len == that parameter), or "?" (not recognised).
+// The descriptor is attached to the receiver field the loop's events carry.
+func (cs codecSide) loopCounts(f *ssa.Function, decode bool) map[string]string {
+	out := map[string]string{}
+	lh := loopHeaders(f)
+	// events per loop header
+	evField := map[*ssa.BasicBlock]string{}
+	for _, b := range f.Blocks {
+		for _, in := range b.Instrs {
+			ev := cs.classifyWire(f, in)
+			if ev == nil {
+				continue
+			}
+			for h := range lh[b] {
+				// innermost loops only: a header that contains no other header of this block
+				inner := true
+				for h2 := range lh[b] {
+					if h2 != h && lh[h2][h] {
+						inner = false
+					}
+				}
+				if inner {
+					if old, seen := evField[h]; !seen || ((old == "" || old == "?") && ev.field != "" && ev.field != "?") {
+						evField[h] = ev.field
+					}
+				}
+			}
+		}
+	}
+	for h, field := range evField {
+		// the loop condition: an If in the header (or in a rotated loop's latch) comparing an index with a bound
+		var bound ssa.Value
+		for b := range lhBlocks(lh, h) {
+			ifi, ok := b.Instrs[len(b.Instrs)-1].(*ssa.If)
+			if !ok {
+				continue
+			}
+			bo, ok := ifi.Cond.(*ssa.BinOp)
+			if !ok || bo.Op != token.LSS {
+				continue
+			}
+			if p, ok := stripConv(bo.X).(*ssa.Phi); ok && lh[p.Block()][h] {
+				bound = bo.Y
+			} else if add, ok := stripConv(bo.X).(*ssa.BinOp); ok && add.Op == token.ADD {
+				if p, ok := stripConv(add.X).(*ssa.Phi); ok && lh[p.Block()][h] {
+					bound = bo.Y
+				}
+			}
+		}
+		desc := "?"
+		if bound != nil {
+			desc = cs.countSource(f, bound, decode)
+		}
+		key := field
+		if old, dup := out[key]; dup && old != desc {
+			desc = old + "|" + desc
+		}
+		out[key] = desc
+	}
+	return out
+}
+
+func lhBlocks(lh map[*ssa.BasicBlock]map[*ssa.BasicBlock]bool, h *ssa.BasicBlock) map[*ssa.BasicBlock]bool {
+	out := map[*ssa.BasicBlock]bool{}
+	for b, hs := range lh {
+		if hs[h] {
+			out[b] = true
+		}
+	}
+	return out
+}
+
+// countSource classifies a loop bound.
+func (cs codecSide) countSource(f *ssa.Function, bound ssa.Value, decode bool) string {
+	b := stripConv(bound)
+	if k, ok := constInt(b); ok {
+		return fmt.Sprintf("fixed:%d", k)
+	}
+	// protocol parameter (package-level variable/constant)
+	if u, ok := b.(*ssa.UnOp); ok {
+		if g, ok := u.X.(*ssa.Global); ok {
+			return "fixed:" + g.Name()
+		}
+	}
+	if decode {
+		// the decoded count
+		if src := wireOrigin(b, map[ssa.Value]bool{}, 0); src == "DecodeLength" || src == "DecodeInteger" || src == "decodeUintFromReader" {
+			return "prefixed"
+		}
+		// range over a slice made with a fixed/decoded size
+		if call, ok := b.(*ssa.Call); ok {
+			if bi, ok := call.Call.Value.(*ssa.Builtin); ok && bi.Name() == "len" {
+				if ms, ok := stripConv(call.Call.Args[0]).(*ssa.MakeSlice); ok {
+					return cs.countSource(f, ms.Len, decode)
+				}
+			}
+		}
+		return "?"
+	}
+	// encode: len(x) — prefixed if some EncodeLength/EncodeInteger event is fed len of the same x; fixed:C if an If compares len(x) with C
+	call, ok := b.(*ssa.Call)
+	if !ok {
+		return "?"
+	}
+	bi, ok := call.Call.Value.(*ssa.Builtin)
+	if !ok || bi.Name() != "len" {
+		return "?"
+	}
+	subject := exprStr(call.Call.Args[0], shapeOpts)
+	// a local list of keys built by ranging a receiver map: the count is the map's
+	if root := localRoot(stripConv(call.Call.Args[0])); root != nil {
+		if m := rangedMap(root); m != nil {
+			subject = exprStr(m, shapeOpts)
+		}
+	}
+	res := "len-unchecked"
+	allInstrs(f, func(in ssa.Instruction) {
+		switch x := in.(type) {
+		case *ssa.Call:
+			if sc := x.Call.StaticCallee(); sc != nil && (sc.Name() == "EncodeLength" || sc.Name() == "EncodeInteger") && len(x.Call.Args) == 2 {
+				if exprStr(x.Call.Args[1], shapeOpts) == "u64(len("+subject+"))" || exprStr(stripConv(x.Call.Args[1]), shapeOpts) == "len("+subject+")" {
+					res = "prefixed"
+				}
+			}
+		case *ssa.If:
+			if bo, ok := x.Cond.(*ssa.BinOp); ok && (bo.Op == token.NEQ || bo.Op == token.EQL) {
+				l, r := stripConv(bo.X), stripConv(bo.Y)
+				isLen := func(v ssa.Value) bool { return exprStr(v, shapeOpts) == "len("+subject+")" }
+				other := ssa.Value(nil)
+				if isLen(l) {
+					other = r
+				} else if isLen(r) {
+					other = l
+				}
+				if other != nil && res != "prefixed" {
+					if k, ok := constInt(other); ok {
+						res = fmt.Sprintf("fixed:%d", k)
+					} else if u, ok := other.(*ssa.UnOp); ok {
+						if g, ok := u.X.(*ssa.Global); ok {
+							res = "fixed:" + g.Name()
+						}
+					}
+				}
+			}
+		}
+	})
+	return res
+}
+
+
+// rangedMap: the local slice is filled by appending keys obtained from ranging a map: that map.
+func rangedMap(root ssa.Value) ssa.Value {
+	var out ssa.Value
+	seen := map[ssa.Value]bool{}
+	var scan func(v ssa.Value, d int)
+	scan = func(v ssa.Value, d int) {
+		if v == nil || seen[v] || d > 12 || out != nil {
+			return
+		}
+		seen[v] = true
+		switch x := v.(type) {
+		case *ssa.Extract:
+			scan(x.Tuple, d+1)
+		case *ssa.Next:
+			scan(x.Iter, d+1)
+		case *ssa.Range:
+			if _, isMap := x.X.Type().Underlying().(*types.Map); isMap {
+				out = x.X
+			}
+		case *ssa.Convert:
+			scan(x.X, d+1)
+		case *ssa.ChangeType:
+			scan(x.X, d+1)
+		case *ssa.UnOp:
+			scan(x.X, d+1)
+		case *ssa.Slice:
+			scan(x.X, d+1)
+		case *ssa.Alloc:
+			for _, r := range *x.Referrers() {
+				if st, ok := r.(*ssa.Store); ok {
+					scan(st.Val, d+1)
+				}
+				if ia, ok := r.(*ssa.IndexAddr); ok {
+					for _, r2 := range *ia.Referrers() {
+						if st, ok := r2.(*ssa.Store); ok {
+							scan(st.Val, d+1)
+						}
+					}
+				}
+			}
+		case *ssa.Call:
+			for _, a := range x.Call.Args {
+				scan(a, d+1)
+			}
+		case *ssa.Phi:
+			for _, e := range x.Edges {
+				scan(e, d+1)
+			}
+		}
+	}
+	if refs := root.Referrers(); refs != nil {
+		for _, r := range *refs {
+			if st, ok := r.(*ssa.Store); ok {
+				scan(st.Val, 0)
+			}
+		}
+	}
+	return out
+}
